@@ -141,8 +141,8 @@ func (fr *frame) visitInstr(instr ssa.Instruction) continuation {
 	p := fr.p
 	p.steps++
 	p.curFr = fr
-	if p.steps > p.eng.cfg.MaxSteps {
-		p.end(stUnwind, fmt.Sprintf("step budget %d exceeded in %v", p.eng.cfg.MaxSteps, fr.fn))
+	if p.steps > p.cfg.MaxSteps {
+		p.end(stUnwind, fmt.Sprintf("step budget %d exceeded in %v", p.cfg.MaxSteps, fr.fn))
 	}
 	switch instr := instr.(type) {
 	case *ssa.DebugRef:
@@ -489,14 +489,14 @@ func (p *Path) callSSA(caller *frame, callpos token.Pos, fn *ssa.Function, args 
 	}
 	if p.eng.inRepo(fn) {
 		p.funcsRun[fn] = true
-	} else if p.eng.cfg.TrackLib {
+	} else if p.cfg.TrackLib {
 		p.funcsRun[fn] = true
 	}
 	depth := 0
 	for c := caller; c != nil; c = c.caller {
 		depth++
 	}
-	if depth > p.eng.cfg.MaxDepth {
+	if depth > p.cfg.MaxDepth {
 		p.end(stUnwind, "call depth exceeded in "+fn.String())
 	}
 	fr.env = make(map[ssa.Value]value)
@@ -546,8 +546,8 @@ func (fr *frame) runFrame() {
 			fr.visits = map[*ssa.BasicBlock]int{}
 		}
 		fr.visits[fr.block]++
-		if fr.visits[fr.block] > fr.p.eng.cfg.Unwind {
-			fr.p.end(stUnwind, fmt.Sprintf("unwinding bound %d exceeded in %v block %d", fr.p.eng.cfg.Unwind, fr.fn, fr.block.Index))
+		if fr.visits[fr.block] > fr.p.cfg.Unwind {
+			fr.p.end(stUnwind, fmt.Sprintf("unwinding bound %d exceeded in %v block %d", fr.p.cfg.Unwind, fr.fn, fr.block.Index))
 		}
 		nonPhis := fr.executePhis()
 		for _, instr := range nonPhis {
